@@ -373,6 +373,36 @@ Theorem C02_element_assignments_compose : forall a g b, assign_elems g (a ++ b) 
 Proof. exact assign_elems_app. Qed.
 Print Assumptions C02_element_assignments_compose.
 
+(* ---------------- payloads of the other records the specification lays out ---------------- *)
+
+(* the classification lookup record (ClassNumber unsigned char, Description char[15]; a complete table: 256 records, 4096 bytes),
+   the 26-byte waveform packet descriptor, the GeoKeyDirectory header and key entry: laspy's struct format / ctypes structures
+   (regenerated from the running module; parse_record_data found to enter EVERY record of the payload) are the specification's *)
+Theorem C02_known_payload_layouts :
+  gen_known_payload "lookup" = Some spec_lookup_record
+  /\ gen_known_payload "waveform" = Some spec_waveform_descriptor
+  /\ gen_known_payload "geokeys_header" = Some spec_geokeys_header
+  /\ gen_known_payload "geokey" = Some spec_geokey_entry
+  /\ layout_width spec_lookup_record = 16 /\ spec_lookup_table_records * layout_width spec_lookup_record = spec_lookup_table_size
+  /\ layout_width spec_waveform_descriptor = 26 /\ layout_width spec_geokeys_header = 8 /\ layout_width spec_geokey_entry = 8.
+Proof. exact known_payloads_spec. Qed.
+Print Assumptions C02_known_payload_layouts.
+
+(* what laspy's structure writes for in-range values, the specification's decoder reads, whole payload record consumed *)
+Theorem C02_known_payload_round_trip : forall name L vals bs, gen_known_payload name = Some L ->
+  wf_fields L vals = true -> enc_fields L vals = Ok bs ->
+  spec_dec_known name bs = Ok (combine (spec_known_names name) vals, []) /\ spec_enc_known name vals = Ok bs.
+Proof. exact known_payload_round_trip. Qed.
+Print Assumptions C02_known_payload_round_trip.
+
+(* the classification lookup table as a whole: any table of distinct class numbers 0..255 whose descriptions are at most 15
+   non-NUL bytes -- BLANK descriptions included, e.g. the complete 256-record table with most classes unnamed -- is what
+   parsing its bytes yields, record for record and in order, and its bytes are 16 per record *)
+Theorem C02_lookup_table_round_trip : forall t, lookup_wf [] t = true ->
+  lookup_parse (lookup_bytes t) = Some t /\ len (lookup_bytes t) = 16 * len t.
+Proof. exact lookup_table_round_trip. Qed.
+Print Assumptions C02_lookup_table_round_trip.
+
 (* a format-6 record with one int16[2] extra dimension: every bit field at its maximum, signed extremes, a NaN payload
    in gps_time; 34 bytes; the laspy-layout encoder and the specification's decoder; an out-of-range return number refused *)
 Example C02_nonvacuous :
@@ -409,6 +439,12 @@ Example C02_nonvacuous :
                              [amp; ("r"%string, 1, 32, 1, false, ""%string, Some [0], Some [0x3FE0000000000000])] = true
       /\ ebs_of_dims [amp; refl; ("raw"%string, 1, 40, 5, false, ""%string, None, None)]
          = Some [("amplitude"%string, 3, 0); ("reflectance"%string, 9, 0); ("raw"%string, 0, 5)])
+  (* a lookup table with a blank description between two named classes: 48 bytes, three records read back *)
+  /\ lookup_parse (lookup_bytes [(2, [103; 114]); (7, []); (9, [119])]) = Some [(2, [103; 114]); (7, []); (9, [119])]
+  /\ len (lookup_bytes [(2, [103; 114]); (7, []); (9, [119])]) = 48
+  /\ spec_dec_known "waveform" ([8; 1; 88; 0; 0; 0; 232; 3; 0; 0] ++ repeat 0 16)
+     = Ok ([("bits_per_sample"%string, VInt 8); ("waveform_compression_type"%string, VInt 1); ("number_of_samples"%string, VInt 88);
+            ("temporal_sample_spacing"%string, VInt 1000); ("digitizer_gain"%string, VInt 0); ("digitizer_offset"%string, VInt 0)], [])
   (* normal[mask, 1] = .. then normal[[1], 0] = .. on three points of int16[3] *)
   /\ assign_elems [[1; 2; 3]; [4; 5; 6]; [7; 8; 9]] [(0%nat, 1%nat, 20); (2%nat, 1%nat, 80); (1%nat, 0%nat, 40)] = [[1; 20; 3]; [40; 5; 6]; [7; 80; 9]].
 Proof. vm_compute. repeat split; reflexivity. Qed.
